@@ -182,6 +182,92 @@ class ModelObj:
         return f"ModelObj({self.kind})"
 
 
+_WRITTEN_STATE = None
+_MUTATORS = {"update", "setdefault", "pop", "popitem", "clear", "append", "extend", "add", "insert", "remove", "discard", "sort", "reverse",
+             "__setitem__", "__delitem__", "cache_clear"}
+
+
+def written_state_ids():
+    """ids of the module-level / class-level mutable containers of the repository package that SOME function of the
+    package writes to (subscript store / delete, augmented assignment, a mutating method call).  Such an object is
+    program state: what it holds when a function runs is unknown, so no read of it is modelled (a memoisation table
+    is the typical case: reading the empty table of analysis time would silently ignore every cache hit)."""
+    global _WRITTEN_STATE
+    if _WRITTEN_STATE is not None:
+        return _WRITTEN_STATE
+    names = set()
+    pkg_dir = os.path.join(REPO, PKG)
+    for fn in sorted(os.listdir(pkg_dir)):
+        if not fn.endswith(".py"):
+            continue
+        try:
+            tree = ast.parse(open(os.path.join(pkg_dir, fn)).read())
+        except SyntaxError:
+            continue
+        for f in ast.walk(tree):
+            if not isinstance(f, (ast.FunctionDef, ast.Lambda)):
+                continue
+            for n in ast.walk(f):
+                tgt = None
+                if isinstance(n, ast.Subscript) and isinstance(n.ctx, (ast.Store, ast.Del)):
+                    tgt = n.value
+                elif isinstance(n, ast.AugAssign) and isinstance(n.target, (ast.Name, ast.Attribute)):
+                    tgt = n.target
+                elif isinstance(n, ast.Call) and isinstance(n.func, ast.Attribute) and n.func.attr in _MUTATORS:
+                    tgt = n.func.value
+                if isinstance(tgt, ast.Name):
+                    names.add(tgt.id)
+                elif isinstance(tgt, ast.Attribute):
+                    names.add(tgt.attr)
+    ids = set()
+    for modname, mod in list(sys.modules.items()):
+        if mod is None or not (modname == PKG or modname.startswith(PKG + ".")):
+            continue
+        for k, v in list(vars(mod).items()):
+            if k in names and isinstance(v, (dict, list, set, bytearray)):
+                ids.add(id(v))
+            if isinstance(v, type) and (getattr(v, "__module__", "") or "").startswith(PKG):
+                for kk, vv in list(vars(v).items()):
+                    if kk in names and isinstance(vv, (dict, list, set, bytearray)):
+                        ids.add(id(vv))
+    _WRITTEN_STATE = ids
+    return ids
+
+
+class ProgramState(L.SymVal):
+    """a module / class level container that the package writes to: opaque (every use is UNDECIDED)"""
+    def __init__(self, obj):
+        self.obj = obj
+
+    def __repr__(self):
+        return "ProgramState(" + type(self.obj).__name__ + ")"
+
+
+def guard_state(v):
+    if isinstance(v, (dict, list, set, bytearray)) and id(v) in written_state_ids():
+        return ProgramState(v)
+    return v
+
+
+class _ChainEnv(dict):
+    """local names of a nested function on top of the (live) environment of the enclosing one: reads fall through,
+    writes stay local"""
+    def __init__(self, local, outer):
+        super().__init__(local)
+        self.outer = outer
+
+    def __missing__(self, k):
+        return self.outer[k]
+
+    def __contains__(self, k):
+        return dict.__contains__(self, k) or k in self.outer
+
+    def get(self, k, d=None):
+        if dict.__contains__(self, k):
+            return dict.__getitem__(self, k)
+        return self.outer.get(k, d)
+
+
 class GenTuple(tuple):
     """the (eagerly evaluated) elements of a generator expression: a tuple for every consumer that iterates it, and
     an ITERATOR for next(): `pos` is the number of elements already taken"""
@@ -446,6 +532,22 @@ class Source:
         self.func_cache[key] = node
         return node
 
+    def lambdadef(self, f):
+        """the AST of a lambda of a repository module, found by its first line (unique lambda with that parameter
+        list on that line), wrapped as a function whose body returns the lambda's expression"""
+        key = (f.__module__, "<lambda>", f.__code__.co_firstlineno, f.__code__.co_varnames[:f.__code__.co_argcount])
+        if key in self.func_cache:
+            return self.func_cache[key]
+        cands = [n for n in ast.walk(self.tree(f.__module__)) if isinstance(n, ast.Lambda) and n.lineno == f.__code__.co_firstlineno
+                 and tuple(a.arg for a in n.args.posonlyargs + n.args.args) == tuple(f.__code__.co_varnames[:f.__code__.co_argcount])]
+        if len(cands) != 1:
+            raise Undecided(f"no unique source for the lambda at {f.__module__}:{f.__code__.co_firstlineno}")
+        lam = cands[0]
+        fd = ast.FunctionDef(name="<lambda>", args=lam.args, body=[ast.Return(value=lam.body)], decorator_list=[], lineno=lam.lineno, col_offset=0)
+        ast.fix_missing_locations(fd)
+        self.func_cache[key] = fd
+        return fd
+
     def func_hash(self, modname, qualname):
         import hashlib
         return hashlib.sha256(ast.dump(self.funcdef(modname, qualname)).encode()).hexdigest()[:16]
@@ -708,7 +810,7 @@ class Ctx:
             # a symbolic wrapper without a model for this attribute: never answer with the wrapper's own Python attributes
             raise Undecided(f"attribute {name} of {type(v).__name__}")
         try:
-            return getattr(v, name)
+            return guard_state(getattr(v, name))
         except AttributeError:
             raise PyRaise(AttributeError, name)
 
@@ -732,7 +834,7 @@ class Ctx:
                     if inst is None:
                         return a
                     raise PyRaise(AttributeError, name)
-                return a
+                return guard_state(a)
         raise PyRaise(AttributeError, name)
 
     def setattr(self, v, name, val):
@@ -781,6 +883,19 @@ class Ctx:
             return self.instantiate(f, args, kwargs)
         if callable(getattr(f, "sym_call", None)):
             return f.sym_call(self, args, kwargs)
+        w = getattr(f, "__wrapped__", None)
+        if type(f).__name__ == "_lru_cache_wrapper" and w is not None and is_repo_func(w):
+            # functools.lru_cache / cache around a repository function: transparent iff the function is a pure function
+            # of hashable VALUES (no randomness / IO / program state, arguments compared by value); anything else
+            # (a memoised random draw, a method caching on `self`) is outside the model
+            qn = w.__module__ + "." + w.__qualname__
+            if _has_effects(qn):
+                raise Undecided("lru_cache around a function with effects: " + qn)
+            for a in list(args) + list(kwargs.values()):
+                a = simplify_native(a)
+                if isinstance(a, Ref) or (isinstance(a, L.SymVal) and L.family(a) not in ("bytes", "str", "int")):
+                    raise Undecided("lru_cache keyed by an object (identity / mutable state)")
+            return self.call_repo(w, args, kwargs)
         return self.call_native(f, args, kwargs)
 
     def call_native(self, f, args, kwargs):
@@ -807,6 +922,13 @@ class Ctx:
             raise PyRaise(type(e), str(e))
 
     def instantiate(self, cls, args, kwargs):
+        if issubclass(cls, tuple) and hasattr(cls, "_fields") and "__new__" in vars(cls) and not is_repo_func(vars(cls)["__new__"]):
+            # typing.NamedTuple / collections.namedtuple: an immutable tuple with named fields; the generated __new__
+            # only binds arguments, so it is run natively (the items may be symbolic values)
+            try:
+                return cls(*args, **kwargs)
+            except TypeError as e:
+                raise PyRaise(TypeError, str(e))
         ref = self.alloc(HObj(cls))
         init = None
         for k in cls.__mro__:
@@ -839,7 +961,10 @@ class Ctx:
         return self.interp(f, args, kwargs)
 
     def interp(self, f, args, kwargs):
-        fd = SOURCE.funcdef(f.__module__, f.__qualname__)
+        if f.__name__ == "<lambda>":
+            fd = SOURCE.lambdadef(f)
+        else:
+            fd = SOURCE.funcdef(f.__module__, f.__qualname__)
         mod = sys.modules[f.__module__]
         env = bind_params(self, f, fd, args, kwargs)
         self.depth += 1
@@ -1271,8 +1396,65 @@ class Frame:
     def s_Global(self, s):
         raise Undecided("global statement")
 
+    def s_Match(self, s):
+        subj = self.ev(s.subject)
+
+        def matches(pat):
+            if isinstance(pat, ast.MatchValue):
+                return compare(self.ctx, ast.Eq(), subj, self.ev(pat.value))
+            if isinstance(pat, ast.MatchSingleton):
+                return _is(subj, pat.value)
+            if isinstance(pat, ast.MatchOr):
+                return lor(*[matches(p) for p in pat.patterns])
+            if isinstance(pat, ast.MatchAs) and pat.pattern is None:
+                return True
+            raise Undecided("match pattern " + type(pat).__name__)
+        for case in s.cases:
+            cond = matches(case.pattern)
+            if isinstance(case.pattern, ast.MatchAs) and case.pattern.pattern is None and case.pattern.name:
+                self.env[case.pattern.name] = subj
+            if case.guard is not None:
+                if self.ctx.branch(self.ctx.truthy(cond)) and self.ctx.branch(self.ctx.truthy(self.ev(case.guard))):
+                    return self.exec_block(case.body)
+                continue
+            if self.ctx.branch(self.ctx.truthy(cond)):
+                return self.exec_block(case.body)
+
     def s_FunctionDef(self, s):
-        raise Undecided("nested function")
+        """a nested function is a closure over the current environment (late binding of free variables, like
+        Python); decorators, generators, nonlocal/global rebinding and */** parameters are outside the subset"""
+        a = s.args
+        if s.decorator_list or a.vararg or a.kwarg or a.kwonlyargs or a.posonlyargs or _is_generator(s):
+            raise Undecided("nested function with decorators / generators / star parameters")
+        for n in ast.walk(s):
+            if isinstance(n, (ast.Nonlocal, ast.Global)):
+                raise Undecided("nested function rebinding outer names")
+        names = [x.arg for x in a.args]
+        defaults = [self.ev(d) for d in a.defaults]
+        outer = self
+
+        def closure(*args, **kwargs):
+            if len(args) > len(names):
+                raise PyRaise(TypeError, "too many positional arguments")
+            bound = dict(zip(names, args))
+            for k, v in kwargs.items():
+                if k not in names or k in bound:
+                    raise PyRaise(TypeError, "unexpected argument")
+                bound[k] = v
+            for n, d in zip(names[len(names) - len(defaults):], defaults):
+                bound.setdefault(n, d)
+            if len(bound) != len(names):
+                raise PyRaise(TypeError, "missing argument")
+            env = _ChainEnv(bound, outer.env)
+            fr = Frame(outer.ctx, outer.mod, env, outer.func)
+            try:
+                fr.exec_block(s.body)
+            except _Return as r:
+                return r.v
+            return None
+        closure.__module__ = "pyvc.engine"
+        closure.__qualname__ = s.name
+        self.env[s.name] = closure
 
     # -- expressions
     def lookup(self, name):
@@ -1280,7 +1462,7 @@ class Frame:
             return self.env[name]
         g = vars(self.mod)
         if name in g:
-            return g[name]
+            return guard_state(g[name])
         if hasattr(builtins, name):
             return getattr(builtins, name)
         raise PyRaise(NameError, name)
@@ -1460,6 +1642,11 @@ class Frame:
                 continue
             kwargs[k.arg] = self.ev(k.value)
         return self.ctx.call_value(f, args, kwargs)
+
+    def e_NamedExpr(self, e):
+        v = self.ev(e.value)
+        self.assign(e.target, v)
+        return v
 
     def e_Lambda(self, e):
         """a closure over the current environment (late binding, like Python); positional parameters with
@@ -2110,6 +2297,15 @@ def subscript(ctx, base, idx):
                 if ctx.branch(value_eq(ctx, idx, k)):
                     return lift_native(ctx, base[k])
             raise PyRaise(KeyError)
+        if isinstance(base, (list, tuple)) and 0 < len(base) <= 16:
+            # small constant sequence of arbitrary values (e.g. (mainnet, testnet) pairs indexed by a flag): decided
+            # position by position, IndexError outside
+            n = len(base)
+            ii = z3.If(idx, 1, 0) if z3.is_bool(idx) else idx
+            for i in range(n):
+                if ctx.branch(lor(ii == i, ii == i - n)):
+                    return lift_native(ctx, base[i])
+            raise PyRaise(IndexError)
         raise Undecided("symbolic index into native container")
     if contains_sym(idx):
         if isinstance(base, dict) and len(base) <= 64 and all(isinstance(k, (int, str, bytes)) for k in base):
@@ -2122,6 +2318,40 @@ def subscript(ctx, base, idx):
         return base[idx]
     except BaseException as ex:
         raise PyRaise(type(ex), str(ex))
+
+
+def table_term(ctx, table, key, default):
+    """lookup in a small constant dict with integer values as ONE if-chain term (no path split per key): used when a
+    loop looks characters / codes up in a table, where a split per key would be exponential.  None if not applicable."""
+    if not table or not all(isinstance(v, int) and not isinstance(v, bool) for v in table.values()):
+        return None
+    if not (isinstance(default, int) and not isinstance(default, bool)):
+        return None
+    from .seqs import ZChar
+    from .lowbits import LB
+    code = None
+    if isinstance(key, ZChar) and all(isinstance(k, str) and len(k) == 1 for k in table):
+        code, keys = key.code, [ord(k) for k in table]
+    elif (is_sym(key) and z3.is_int(key)) and all(isinstance(k, int) and not isinstance(k, bool) for k in table):
+        code, keys = key, list(table)
+    elif isinstance(key, LB) and key.exact and all(isinstance(k, int) and not isinstance(k, bool) and 0 <= k < 2 ** 32 for k in table):
+        code, keys = key, list(table)
+    if code is None:
+        return None
+    vals = list(table.values())
+    if isinstance(code, LB):
+        if not code.exact:
+            return None
+        if all(0 <= v < 2 ** 32 for v in vals + [default]):
+            r = z3.BitVecVal(default, 32)
+            for k, v in zip(keys, vals):
+                r = z3.If(code.v == z3.BitVecVal(k, 32), z3.BitVecVal(v, 32), r)
+            return LB(r, True, max([v.bit_length() for v in vals + [default]] + [1]))
+        code = code.as_int()
+    r = z3.IntVal(default)
+    for k, v in zip(keys, vals):
+        r = z3.If(code == k, z3.IntVal(v), r)
+    return r
 
 
 def _table_ground(ctx, tab):
@@ -2234,6 +2464,21 @@ def builtin_method(ctx, kind, name, selfv, args, kwargs):
             o.pos = min(len(o.rope), o.pos + n)
             ctx.writes.append((selfv.oid, "pos"))
             return simplify_native(r)
+        if name == "write" and len(args) == 1 and not kwargs:
+            data = simplify_native(args[0])
+            if not isinstance(data, (Rope, bytes, bytearray)):
+                raise Undecided("BytesIO.write of " + type(data).__name__)
+            data = as_rope(data)
+            if o.pos != len(o.rope):
+                raise Undecided("BytesIO.write in the middle of the buffer")
+            o.rope = o.rope + data
+            o.pos = len(o.rope)
+            ctx.writes.append((selfv.oid, "pos"))
+            return len(data)
+        if name == "getvalue" and not args and not kwargs:
+            return simplify_native(o.rope)
+        if name == "tell" and not args and not kwargs:
+            return o.pos
         raise Undecided(f"BytesIO.{name}")
     if kind == "bytes":
         r = as_rope(selfv)
